@@ -37,12 +37,29 @@ SameIds(a, b) == \A c \in Collections : IdSeq(a[c]) = IdSeq(b[c])
 Ev == Rec[l]
 IsEvent(e) == l <= Len(Rec) /\ Rec[l].ev = e /\ l' = l + 1
 
+\* ---- classes of tilt and azimuth by the specification's own tables ----
+\* The recorder logs, per wall, the class the code assigns (tilt, orient) and the angle itself (tx, ax: floor and
+\* fraction in 2^-23). The model the obligations speak about carries the classes of Classifiers.tla; an angle outside
+\* [0, 360) that lies within 2^-13 degrees of a class boundary is left with the code's class (the code normalises in
+\* f32 and may round across the boundary there; same tolerance as the exhaustive sweep of C11).
+Cl == INSTANCE Classifiers
+Eps13 == 1024
+Shifted(a, d) == LET t == a[2] + d IN
+                 IF t < 0 THEN <<a[1] - 1, t + 8388608>> ELSE IF t >= 8388608 THEN <<a[1] + 1, t - 8388608>> ELSE <<a[1], t>>
+SafeAngle(a, bounds) == (0 <= a[1] /\ a[1] < 360) \/ Cl!ConstantOn(bounds, Shifted(a, -Eps13), Shifted(a, Eps13))
+ClassedWall(w) ==
+  IF "angok" \notin DOMAIN w \/ ~w.angok THEN w
+  ELSE LET t == <<w.tx[1], w.tx[2]>>  a == <<w.ax[1], w.ax[2]>> IN
+       [w EXCEPT !.tilt = IF SafeAngle(t, Cl!TiltBounds) THEN Cl!TiltClass(t) ELSE @,
+                 !.orient = IF SafeAngle(a, Cl!OrientBounds) THEN Cl!OrientClass(a) ELSE @]
+Classed(x) == [x EXCEPT !.walls = [i \in DOMAIN @ |-> ClassedWall(@[i])]]
+
 TraceInit == l = 1 /\ m = EmptyModel /\ lock = "free" /\ Hz = <<>> /\ last = <<>>
 
 TraceTables == IsEvent("Tables") /\ Hz' = Ev.H /\ UNCHANGED <<m, lock, last>>
 
 \* a model is loaded from JSON (or built by the concretiser); nothing to check
-TraceLoad == IsEvent("Load") /\ m' = Ev.model /\ last' = <<>> /\ UNCHANGED <<lock, Hz>>
+TraceLoad == IsEvent("Load") /\ m' = Classed(Ev.model) /\ last' = <<>> /\ UNCHANGED <<lock, Hz>>
 
 \* C15: exactly the broken links, one warning each; the model is not modified
 TraceCheck == /\ IsEvent("Check")
@@ -68,7 +85,7 @@ Sane(x) == LinksClosed(x) /\ AllUnique(x)
 
 \* C14 + C08..C11: the computation is total, and what it reports is what the definitions give
 TraceComputeOk ==
-  LET x == Ev.model  num == Ev.numeric /\ AllUnique(Ev.model) IN
+  LET x == Classed(Ev.model)  num == Ev.numeric /\ AllUnique(Ev.model) IN
   /\ Chk("C15", "IndicatorWarningsAreTheCheckers", SameBag(Ev.warn, CheckSpec(m)))
   /\ Chk("C11", "Props",   num => PropsOk(x, Ev.props))
   /\ Chk("C11", "Globals", num => GlobalsOk(x, Ev.props, Ev.glob))
@@ -96,7 +113,7 @@ TraceCompute ==
   \* known-good model in the same process and logs whether that worked
   /\ lock' = IF Ev.outcome # "ok" /\ "probe_ok" \in DOMAIN Ev /\ ~Ev.probe_ok THEN "poisoned" ELSE lock
   /\ Chk("C14", "FailureDoesNotAffectLaterComputations", lock' = "free")
-  /\ m' = IF Ev.outcome = "ok" THEN Ev.model ELSE m
+  /\ m' = IF Ev.outcome = "ok" THEN Classed(Ev.model) ELSE m
   /\ UNCHANGED Hz
 
 \* the same obligations on a model reached by structural edits of a JSON tree (only the reference graph and
